@@ -7,7 +7,8 @@ EXE = 'c18'
 THEOREMS = ['Tbox.C18.C18_reachable_inv', 'Tbox.C18.C18_channel_fifo_once', 'Tbox.C18.C18_mutex_exclusive',
             'Tbox.C18.C18_semaphore_bound', 'Tbox.C18.C18_no_lost_wakeup', 'Tbox.C18.C18_no_lost_wakeup_quiescent',
             'Tbox.C18.C18_cancel_unblocks', 'Tbox.C18.C18_cancel_fails', 'Tbox.C18.C18_reachable_cab', 'Tbox.C18.C18_cleanup_terminates',
-            'Tbox.C18.C18_cleanup_all_dead', 'Tbox.C18.C18_cancelled_switch_terminates', 'Tbox.C18.C18_join_finished_returns_failure', 'Tbox.C18.C18_join', 'Tbox.C18.C18_join_single',
+            'Tbox.C18.C18_cleanup_all_dead', 'Tbox.C18.C18_cancelled_switch_terminates', 'Tbox.C18.C18_join_finished_returns_failure', 'Tbox.C18.C18_condition_post_consumes', 'Tbox.C18.C18_cleanup_fails_pending',
+            'Tbox.C18.C18_lost_wakeup_condition_counterexample', 'Tbox.C18.C18_join', 'Tbox.C18.C18_join_single',
             'Tbox.C18.C18_lost_wakeup_channel_counterexample', 'Tbox.C18.C18_lost_wakeup_semaphore_counterexample',
             'Tbox.C18.C18_lost_wakeup_mutex_counterexample', 'Tbox.C18.C18_lost_wakeup_rewait_counterexample']
 SOURCES = ['modules/coroutine/scheduler.cpp'] + vlib.EVENT_SOURCES + vlib.BASE_SOURCES
@@ -19,7 +20,7 @@ CASE_TIMEOUT = 30
 SHRINK_TESTS = 80
 MAX_REPORT = 4
 TRUSTED = ['model lean/TboxModel/C18/Model.lean hand-written from modules/coroutine/{scheduler.cpp,channel.hpp,mutex.hpp,semaphore.hpp,'
-           'broadcast.hpp,condition.hpp} AFTER patches/C18-01..04; tied by differential runs of scripted routines on the real scheduler '
+           'broadcast.hpp,condition.hpp} AFTER patches/C18-01..05; tied by differential runs of scripted routines on the real scheduler '
            '(real ucontext switches, real epoll loop; one op line per loop iteration)',
            'ucontext switching (makecontext/swapcontext) and Cabinet token validity (ids never reissued; C08) are trusted',
            'the harness runs without sanitizers (plain flavour): raw memory safety of the coroutine stacks is not observed']
@@ -167,6 +168,54 @@ def wake_families():
                 yield defs + first + mk + sig1 + ['resume %d' % W(0), 'pass'] + sig2 + ['resume %d' % W(0), 'pass', 'pass']
 
 
+def bookkeeping_families():
+    """directed, deterministic: primitives with per-key / per-waiter bookkeeping.
+    Condition: every order of {post x before wait, post x after wait} over 2-3 keys on a kAll (even index) and a
+    kAny (odd index) object, unknown keys, duplicate posts, post after satisfaction, waiting twice on the same object
+    (re-arm, by the same and by another routine), cancel / resume by hand between posts.
+    Broadcast: waiters joining between two posts, the same routine waiting twice.
+    Channel: send before / after the receiver blocks, several receivers, receiver cancelled with an item in flight."""
+    # ---- Condition
+    for k in (0, 1):                                   # 0 = kAll, 1 = kAny
+        for nk in (2, 3):
+            keys = list(range(1, nk + 1))
+            adds = ','.join('ca%d:%d' % (k, v) for v in keys)
+            for mask in range(1 << nk):                # bit i set: key i is posted BEFORE the waiter reaches wait()
+                for order in (keys, keys[::-1]):
+                    before = [v for i, v in enumerate(keys) if mask >> i & 1 and v in order]
+                    after = [v for v in order if v not in before]
+                    ops = ['def 0 %s,y,y,cw%d,s0:9' % (adds, k)] + ['def 0 cp%d:%d' % (k, v) for v in keys]
+                    ops += ['new 0 1'] + ['new %d 1' % v for v in before] + ['pass', 'pass'] + ['new %d 1' % v for v in after] + ['pass', 'pass']
+                    yield ops
+            # unknown key, duplicate post, post after the condition was satisfied, then re-arm by the same routine
+            yield ['def 0 %s,cw%d,%s,cw%d,s0:9' % (adds, k, adds, k), 'def 0 cp%d:7,cp%d:1,cp%d:1' % (k, k, k), 'def 0 ' + ','.join('cp%d:%d' % (k, v) for v in keys[1:]),
+                   'new 0 1', 'new 1 1', 'pass', 'new 2 1', 'pass', 'new 2 1', 'new 1 1', 'pass', 'new 2 1', 'pass', 'pass']
+            # re-arm by ANOTHER routine while the first, already posted, has not run yet (patches/C18-05), both orders of creation
+            post_all = ','.join('cp%d:%d' % (k, v) for v in keys)
+            yield ['def 0 %s,cw%d' % (adds, k), 'def 0 %s,ca%d:8,cw%d' % (post_all, k, k), 'def 0 cp%d:8' % k,
+                   'new 0 1', 'new 1 1', 'pass', 'new 2 1', 'pass', 'pass']
+            yield ['def 0 %s,cw%d' % (adds, k), 'def 0 ca%d:8,cw%d,s0:9' % (k, k), 'def 0 N1,%s' % post_all, 'def 0 cp%d:8' % k,
+                   'new 0 1', 'new 2 1', 'resume 2', 'pass', 'new 3 1', 'pass', 'pass']
+            # a second routine tries to wait while the first is registered (refused), cancel / resume by hand between posts
+            for mid in ('cancel 0', 'resume 0', 'pass'):
+                yield ['def 0 %s,cw%d,%s,cw%d' % (adds, k, adds, k), 'def 0 cp%d:1' % k, 'def 0 ' + ','.join('cp%d:%d' % (k, v) for v in keys[1:]), 'def 0 ca%d:5,cw%d' % (k, k),
+                       'new 0 1', 'new 3 1', 'new 1 1', mid, 'pass', 'new 2 1', 'pass', 'new 1 1', 'new 2 1', 'pass', 'new 3 1', 'new 2 1', 'pass', 'pass']
+    # ---- Broadcast: waiters joining between two posts; the same routine waiting twice; cancel between
+    for nw in (1, 2, 3):
+        for mid in ('pass', 'cancel 0', 'resume 0', 'new 0 1'):
+            yield ['def 0 b0,b0,s0:1', 'def 0 p0'] + ['new 0 1'] * nw + ['new 1 1', mid, 'new 0 1', 'pass', 'new 1 1', 'pass', 'new 1 1', 'pass', 'pass']
+            yield ['def 0 b0,y,b0', 'def 0 p0,y,p0'] + ['new 0 1'] * nw + ['new 1 1', mid, 'pass', 'pass', 'new 1 1', 'pass', 'pass']
+    # ---- Channel: send before / after the receiver blocks, several receivers, receiver cancelled while an item is in flight
+    for nr in (1, 2, 3):
+        for ns in (1, 2, 3):
+            sends = ','.join('s0:%d' % (i + 1) for i in range(ns))
+            yield ['def 0 r0', 'def 0 ' + sends, 'new 1 1'] + ['new 0 1'] * nr + ['pass', 'pass']                       # send first
+            yield ['def 0 r0', 'def 0 ' + sends] + ['new 0 1'] * nr + ['new 1 1', 'pass', 'pass']                       # receivers first
+            for kc in range(nr):                                                                                        # item in flight, receiver cancelled
+                yield ['def 0 r0,r0', 'def 0 ' + sends] + ['new 0 1'] * nr + ['new 1 1', 'cancel %d' % kc, 'pass', 'new 1 1', 'pass', 'pass']
+                yield ['def 0 r0', 'def 0 ' + sends.replace(',', ',y,')] + ['new 0 1'] * nr + ['new 1 1', 'cancel %d' % kc, 'pass', 'pass', 'pass', 'new 0 1', 'pass']
+
+
 ALPHA = ['r0', 's0:1', 'l0', 'u0', 'a0', 'v0', 'y', 'b0', 'p0']
 
 
@@ -180,6 +229,8 @@ def gen(rng, tier):
     yield ['def 0 l0,y,y,u0,l0,y,y,u0', 'def 0 l0,u0', 'new 0 1', 'new 1 1', 'pass', 'pass', 'pass', 'pass', 'pass', 'pass']
     yield ['def 0 r0', 'def 0 s0:7,r0', 'def 0 s0:8', 'new 0 1', 'pass', 'new 1 1', 'pass', 'new 2 1', 'pass', 'pass']
     for ops in wake_families():
+        yield ops
+    for ops in bookkeeping_families():
         yield ops
     n = 500 if tier == 'quick' else 6000
     for _ in range(n):
